@@ -60,7 +60,7 @@ def run(ctx):
             kind, tx = None, None
             if c < 0.65:
                 sub = rng.random()
-                sp = [(r, o) for r, o in utxo.items() if o.public_key.public_key in keys.pks]
+                sp = [(r, o) for r, o in utxo.items() if o.public_key.public_key in keys.pks and o.value > 0]
                 free = [(r, o) for r, o in sp if r not in in_pool]
                 if sub < 0.40 and free:
                     k = rng.randrange(1, min(3, len(free)) + 1)
